@@ -63,12 +63,19 @@ def _setup_modules():
     import mtx_traced as M
     import mtx_unwanted as MU
     import mtx_twin as MT
-    ns = {"M": M, "MU": MU, "MT": MT, "OBJ": M.Kls(), "SUB": M.Sub(), "TOBJ": MT.Kls()}
+    # the SAME FILE loaded a second time as another module (a module reachable under two names, a plugin loader, a reload):
+    # its functions share file name, line numbers and names with the original's - only the objects differ
+    import importlib.util
+    spec = importlib.util.spec_from_file_location("mtx_again", M.__file__)
+    MA = importlib.util.module_from_spec(spec)
+    sys.modules["mtx_again"] = MA
+    spec.loader.exec_module(MA)
+    ns = {"M": M, "MU": MU, "MT": MT, "MA": MA, "OBJ": M.Kls(), "SUB": M.Sub(), "TOBJ": MT.Kls(), "AOBJ": MA.Kls()}
     targets, reg = {}, {}
     for model_f, lst in gen_traced.TARGETS.items():
         for t in lst:
             sigf = eval(t["sig"], ns)
-            canon_name = sigf.__qualname__ if sigf.__module__ != "mtx_twin" else "mtx_twin:" + sigf.__qualname__
+            canon_name = sigf.__qualname__ if sigf.__module__ not in ("mtx_twin", "mtx_again") else sigf.__module__ + ":" + sigf.__qualname__
             t2 = dict(t, model=model_f, wanted=(model_f != "U"), canon=canon_name,
                       maker_f=eval(t["maker"], ns), sigfunc=(lambda f=sigf: f),
                       selfargs_f=(lambda e=t["selfargs"]: eval(e, ns)))
@@ -78,11 +85,24 @@ def _setup_modules():
     return _ENV
 
 
+class LoggerFailure(Exception):
+    pass
+
+
 class RecordingLogger:
-    def __init__(self, S, reg):
+    def __init__(self, S, reg, fail_every=0):
         self.S, self.reg, self.flushes = S, reg, 0
+        self.fail_every, self.nlog = fail_every, 0     # a logger whose log() raises AFTER taking every n-th trace (a full disk, a lost connection)
 
     def log(self, trace):
+        self.nlog += 1
+        try:
+            self._log(trace)
+        finally:
+            if self.fail_every and self.nlog % self.fail_every == 0:
+                raise LoggerFailure("scripted failure of CallTraceLogger.log")
+
+    def _log(self, trace):
         code = getattr(trace.func, "__code__", None)
         name, wanted, model = self.reg.get(id(code), ("?" + getattr(trace.func, "__qualname__", "?"), False, "?"))
         self.S.emit(ev="Log", f=name, known=wanted, model=model,
@@ -227,7 +247,7 @@ def run_scenario(sc):
     reg = env["reg"] if admit is None else {c: (n, w and n.split(":")[-1] in admit, m) for c, (n, w, m) in env["reg"].items()}
     if twin_rejected:
         reg = {c: (n, w and not n.startswith("mtx_twin:"), m) for c, (n, w, m) in reg.items()}
-    logger = RecordingLogger(S, reg)
+    logger = RecordingLogger(S, reg, sc.get("log_fails", 0))
     traced_path = (env["traced_path"],) if twin_rejected else (env["traced_path"], env["twin_path"])
     if admit is None:
         code_filter = lambda code: code.co_filename in traced_path  # noqa: E731
@@ -283,6 +303,8 @@ def run_scenario(sc):
 def _run_chunk(chunk):
     import warnings
     warnings.simplefilter("ignore", RuntimeWarning)
+    import logging
+    logging.disable(logging.CRITICAL)      # (the tracer reports contained failures - scripted here - through `logging`)
     _setup_modules()
     recs = [run_scenario(sc) for sc in chunk]
     return recs, (absmodel.TABLE.mro, absmodel.TABLE.bases, absmodel.TABLE.modqn)
@@ -669,7 +691,8 @@ def main(pid, tier, seed, replay=None):
         for i, b in enumerate(beh1 + beh2):
             tid = len(scs) + 1
             rate = rates[i % len(rates)]
-            scs.append({"tid": tid, "hist": b["hist"], "rate": rate, "k": 0, "seed": seed * 7919 + i, "twin_rejected": i % 4 == 3, "falsy_filter": i % 16 == 5})
+            scs.append({"tid": tid, "hist": b["hist"], "rate": rate, "k": 0, "seed": seed * 7919 + i, "twin_rejected": i % 4 == 3, "falsy_filter": i % 16 == 5,
+                        "log_fails": (1 + i % 3) if i % 8 == 6 else 0})
             preds[tid] = b["pred"]
             if i % 5 == 0:   # the same behaviour with rich values (no prediction; P-layer only)
                 scs.append({"tid": tid + 1, "hist": b["hist"], "rate": rate, "k": rng.choice([0, 3]),
@@ -699,7 +722,7 @@ def main(pid, tier, seed, replay=None):
     for v in verdicts:
         rec, sc = by_tid[v["tid"]], sc_by_tid[v["tid"]]
         for clause in v.get("viol", []):
-            case = {k: sc[k] for k in ("hist", "rate", "k", "seed", "twin_rejected", "falsy_filter") if k in sc}
+            case = {k: sc[k] for k in ("hist", "rate", "k", "seed", "twin_rejected", "falsy_filter", "log_fails") if k in sc}
             if "rich" in sc:
                 case["rich"] = sc["rich"]
             run.violation(scenario_signature(rec, sc, clause), case)
